@@ -93,7 +93,7 @@ fn cache_dir() -> PathBuf {
 
 static COUNTER: AtomicUsize = AtomicUsize::new(0);
 
-fn list_files(root: &Path, dir: &Path, out: &mut Vec<(String, Vec<u8>)>) {
+fn list_files(root: &Path, dir: &Path, out: &mut Vec<(Vec<u8>, Vec<u8>)>) {
     let Ok(rd) = std::fs::read_dir(dir) else { return };
     let mut entries: Vec<_> = rd.filter_map(Result::ok).collect();
     entries.sort_by_key(std::fs::DirEntry::file_name);
@@ -102,7 +102,8 @@ fn list_files(root: &Path, dir: &Path, out: &mut Vec<(String, Vec<u8>)>) {
         if p.is_dir() {
             list_files(root, &p, out);
         } else {
-            let rel = p.strip_prefix(root).unwrap().to_string_lossy().to_string();
+            // raw bytes: OUT_DIR (hence the path) need not be UTF-8
+            let rel = std::os::unix::ffi::OsStrExt::as_bytes(p.strip_prefix(root).unwrap().as_os_str()).to_vec();
             out.push((rel, std::fs::read(&p).unwrap_or_default()));
         }
     }
@@ -169,8 +170,8 @@ fn compile_child(a: &[&str]) -> String {
     let out_dir = if a[3] == "-" {
         None
     } else {
-        let rel = arg_text(a[3]);
-        let d = format!("{}/{}", root.to_string_lossy(), rel);
+        let rel: std::ffi::OsString = std::os::unix::ffi::OsStringExt::from_vec(unhex(a[3]));
+        let d = root.join(rel);
         std::fs::create_dir_all(&d).unwrap();
         Some(d)
     };
@@ -193,7 +194,7 @@ fn compile_child(a: &[&str]) -> String {
     }
     if std::env::var("VERIF_STALE").as_deref() == Ok("1") {
         // a previous, longer build output at the path the include macro reads
-        let dir = out_dir.clone().map_or_else(|| cwd.clone(), PathBuf::from);
+        let dir = out_dir.clone().unwrap_or_else(|| cwd.clone());
         let stale = dir.join(format!("{name}.gen.shape.rs"));
         let _ = std::fs::write(&stale, "// stale output of an earlier build\n".repeat(2000));
     }
@@ -215,10 +216,10 @@ fn compile_child(a: &[&str]) -> String {
     let _ = write!(s, " DET {}", u8::from(same));
     s.push_str(" FILES");
     for (rel, bytes) in &files1 {
-        if rel.starts_with("src/") {
+        if rel.starts_with(b"src/") {
             continue;
         }
-        let _ = write!(s, " {}:{}", hex(rel.as_bytes()), hex(bytes));
+        let _ = write!(s, " {}:{}", hex(rel), hex(bytes));
     }
     s
 }
